@@ -32,6 +32,12 @@ func init() {
 	register(&Family{Name: "coversettle", Gen: genSettleHist, Run: runSettleHist})  // C04: the same histories, the dispute account covers what it owes
 	register(&Family{Name: "nohaltsettle", Gen: genSettleHist, Run: runSettleHist}) // C02: the same histories never stop the chain
 	register(&Family{Name: "framesettle", Gen: genSettleHist, Run: runSettleHist}) // C19: the same histories, pay-outs go to the party they are owed to
+	// C13: the richer histories (groups of selectors, fees paid from stake in several parts) under the settlement monitors
+	register(&Family{Name: "settlerich", Gen: func(r *Rng, i int, tier string) []string {
+		settleRich = true
+		defer func() { settleRich = false }()
+		return genSettleHist(r, i, tier)
+	}, Run: runSettleHist})
 	register(&Family{Name: "apphashsettle", Gen: func(r *Rng, i int, tier string) []string {
 		settleRich = true
 		defer func() { settleRich = false }()
